@@ -677,6 +677,9 @@ func (s *c18) exec(op Op, task string) *obs {
 			res.Err = cl.EnumerateBlobs(ctx, ch, op.After, op.Limit)
 		}
 		<-done
+		if os.Getenv("VERIF_DEBUG") != "" {
+			fmt.Fprintf(os.Stderr, "c18 cenum %+v: %d blobs, err=%v\n", op, len(res.Enum), res.Err)
+		}
 		o.nBlobs = len(res.Enum)
 		o.failed = res.Err
 		o.mops = append(o.mops, sim.Op{Kind: "enum", After: op.After, Limit: op.Limit})
@@ -1258,6 +1261,9 @@ func execC18(rc *harness.RunCtx, p *harness.Plan) *harness.Outcome {
 	s := &c18{rc: rc, p: p, cfg: &cfg, out: out, reached: map[string]int{}, clients: map[string]*client.Client{}, base: time.Now()}
 	for _, sp := range cfg.Blobs {
 		s.pool = append(s.pool, sim.Materialise(sp))
+	}
+	if len(s.pool) > 1000 {
+		s.reach("pool-larger-than-the-client-enumerate-page")
 	}
 	for _, op := range ops {
 		for _, bi := range op.B {
